@@ -72,7 +72,10 @@ class SymReal:
         return self._c(lambda a, b: a != b, o)
 
     def __hash__(self):
-        raise PathAbort("hash of SymReal")
+        # every SymReal falls into the same bucket, so a dict / set lookup with a symbolic real key compares with `==`, which forks on
+        # "the two reals are equal" -- the faithful symbolic reading of e.g. a memo table keyed by an angle.  (A concrete float key
+        # is never found equal to a symbolic one: an under-approximation, stated.)
+        return 0x5EA1
 
     def __sub__(self, o):
         return SymReal(self.e - R(o))
